@@ -19,10 +19,10 @@ using namespace c09;
 
 namespace
 {
-    std::unique_ptr<Api> g_api[3];
+    std::unique_ptr<Api> g_api[4];
     Api &api(int k)
     {
-        if (!g_api[k]) g_api[k].reset(k == 0 ? make_api1() : k == 1 ? make_api2() : make_api1b());
+        if (!g_api[k]) g_api[k].reset(k == 0 ? make_api1() : k == 1 ? make_api2() : k == 2 ? make_api1b() : make_api2b());
         return *g_api[k];
     }
 
@@ -54,9 +54,9 @@ namespace
         int k;
         bool cut;
         std::string nm;
-        StreamWorld(int k, bool cut) : k(k), cut(cut) { nm = std::string(k == 1 ? "serializer-api" : k == 0 ? "archive-api" : "archive-api-bufwriter") + (cut ? "+truncation" : ""); }
+        StreamWorld(int k, bool cut) : k(k), cut(cut) { nm = std::string(k == 1 ? "serializer-api" : k == 0 ? "archive-api" : k == 2 ? "archive-api-bufwriter" : "serializer-api-free-functions") + (cut ? "+truncation" : ""); }
         const char *name() const override { return nm.c_str(); }
-        unsigned weight(Tier) const override { return k == 2 ? 2 : 3; }
+        unsigned weight(Tier) const override { return k >= 2 ? (cut ? 1 : 2) : 3; }
         Plan generate(Rng &r, Tier tier) override
         {
             Plan p;
@@ -238,11 +238,11 @@ int main(int argc, char **argv)
         }
         return 0;
     }
-    StreamWorld w1(0, false), w2(1, false), w2c(1, true), w1b(2, false);
+    StreamWorld w1(0, false), w2(1, false), w2c(1, true), w1b(2, false), w2b(3, false), w2bc(3, true);
     GoldenWorld wg;
     Harness h;
     h.property = "C09";
-    h.worlds = {&w1, &w2, &w2c, &wg, &w1b};
+    h.worlds = {&w1, &w2, &w2c, &wg, &w1b, &w2b, &w2bc};
     h.real = {"igris/serialize/archive.h", "igris/serialize/helper.h", "igris/serialize/stdtypes.h", "igris/serialize/serialize.h", "igris/serialize/serializer.h",
               "igris/serialize/serialize_protocol.h", "igris/serialize/serialize_storage.h", "igris/serialize/serialize_archive.h", "igris/serialize/serialize_scheme.h",
               "igris/serialize/serialize_tags.h", "igris/serialize/serialize_checks.h", "igris/buffer.h"};
